@@ -7,9 +7,9 @@ Open Scope Z_scope.
 (* ---- generic tools ---- *)
 Lemma guard_int_nil : forall p cm X, guard_int [] cm X p = true.
 Proof.
-  assert (NB : forall p, none_below [] p = true).
+  assert (NB : forall p, only_atoms_below [] p = true).
   { intros p. induction p as [i m d chs|i m subs IH|i m n body IH|i ren mren s IH|i ov s IH|i op l sc s IH|i s IH] using pt_ind2;
-      cbn [none_below in_S existsb negb andb]; auto.
+      cbn [only_atoms_below in_S existsb negb andb orb]; auto.
     apply forallb_forall. intros x Hx. rewrite Forall_forall in IH. cbn. apply IH; auto. }
   intros p. induction p as [i m d chs|i m subs IH|i m n body IH|i ren mren s IH|i ov s IH|i op l sc s IH|i s IH] using pt_ind2;
     intros cm X; cbn [guard_int in_S existsb]; auto.
